@@ -260,6 +260,129 @@ pub fn generate(sink: &mut Sink, seed: u64, thorough: bool) {
         sink.stat("fault_program");
         sink.stat_n("fault_positions", total_ops);
     }
+    // ---------------------------------------------------------------- 2b. fault walks (C17, C16)
+    // One reader, a walk of blob reads and point-cloud iterations in random order with repeats, ONE transient
+    // device fault somewhere: the operation in progress may fail, every LATER operation must answer exactly as on
+    // a fresh reader (the device is healthy again).  Many sections end exactly on a page boundary.
+    let nwalk = if thorough { 120 } else { 16 };
+    for w in 0..nwalk {
+        let nb = 4 + rng.below(5) as usize;
+        let mut pos = 48usize; // logical position of the next section
+        let mut stmts: Vec<Stmt> = vec![];
+        for k in 0..nb {
+            let len = if rng.chance(1, 2) {
+                // the section (16 bytes header + data, 4-aligned) ends exactly at the end of a page payload
+                let room = 1020 - (pos + 16) % 1020;
+                room + 1020 * rng.below(2) as usize
+            } else {
+                500 + rng.below(1500) as usize
+            };
+            pos += (16 + len + 3) / 4 * 4;
+            stmts.push(Stmt::Blob(Data::Gen(len, 13 * k + w)));
+        }
+        if rng.chance(1, 2) {
+            let mut g = Gen { rng: &mut rng, exts: vec![], n: 0 };
+            let c = g.cloud(300);
+            let at = rng.below(stmts.len() as u64 + 1) as usize;
+            stmts.insert(at, c);
+        }
+        stmts.push(Stmt::Fin);
+        let prog = Program { guid: "fault-walk".into(), stmts };
+        let ideal = execute(&prog, &SimDev::new(vec![]));
+        if ideal.panicked || ideal.results.last().map(|s| s != "ok").unwrap_or(true) {
+            continue;
+        }
+        let descr: Vec<(u64, u64)> = ideal.results.iter().filter_map(|r| {
+            let p: Vec<&str> = r.split(':').collect();
+            if p.len() == 3 && p[0] == "ok" { Some((p[1].parse().ok()?, p[2].parse().ok()?)) } else { None }
+        }).collect();
+        if descr.is_empty() {
+            continue;
+        }
+        // the walk: indices into descr; usize::MAX = iterate the first point cloud; neighbours follow each other often
+        let mut walk: Vec<usize> = vec![];
+        let mut cur = rng.below(descr.len() as u64) as usize;
+        for _ in 0..(10 + rng.below(8)) {
+            walk.push(if rng.chance(1, 8) { usize::MAX } else { cur });
+            cur = match rng.below(4) {
+                0 | 1 => (cur + 1) % descr.len(),
+                2 => rng.below(descr.len() as u64) as usize,
+                _ => cur,
+            };
+        }
+        let run_walk = |dev: SimDev, fault: Option<u64>| -> Option<(Vec<String>, u64)> {
+            let mut r = E57Reader::new(dev.clone()).ok()?;
+            let before = dev.ops();
+            dev.set_fault(fault.map(|k| before + k));
+            let mut out = vec![];
+            for &i in &walk {
+                if i == usize::MAX {
+                    let pcs = r.pointclouds();
+                    match pcs.first() {
+                        None => out.push("nopc".to_string()),
+                        Some(pc) => match r.pointcloud_raw(pc) {
+                            Err(_) => out.push("err".to_string()),
+                            Ok(it) => {
+                                let mut h = 0xcbf29ce484222325u64;
+                                let mut st = "ok";
+                                for p in it.take(400) {
+                                    match p {
+                                        Ok(vs) => {
+                                            for v in vs {
+                                                for b in Val::from_rv(&v).tok().bytes() {
+                                                    h = (h ^ b as u64).wrapping_mul(0x100000001b3);
+                                                }
+                                            }
+                                        }
+                                        Err(_) => {
+                                            st = "err";
+                                            break;
+                                        }
+                                    }
+                                }
+                                out.push(if st == "ok" { format!("pc:{h}") } else { "err".to_string() });
+                            }
+                        },
+                    }
+                } else {
+                    let mut buf = vec![];
+                    match r.blob(&e57::Blob::new(descr[i].0, descr[i].1), &mut buf) {
+                        Ok(n) => out.push(format!("{n}:{}", fnv_bytes(&buf))),
+                        Err(_) => out.push("err".to_string()),
+                    }
+                }
+            }
+            Some((out, dev.ops() - before))
+        };
+        let Ok(Some((base, nops))) = guarded(|| run_walk(SimDev::new(ideal.file.clone()), None)) else { continue };
+        let line = prog.case_line(&lv);
+        let stride = if thorough { 1 } else { (nops / 60).max(1) };
+        let mut k = rng.below(stride);
+        while k < nops {
+            sink.oracle_evals += 1;
+            let wtxt: Vec<String> = walk.iter().map(|i| if *i == usize::MAX { "pc".to_string() } else { i.to_string() }).collect();
+            let replay = format!("{line} ## fault_walk={} fault_at_op={k}", wtxt.join(","));
+            match guarded(|| run_walk(SimDev::new(ideal.file.clone()), Some(k))) {
+                Err(_) => sink.fail("C16", "device/read-fault-panics", &replay, "reader panicked on a device fault"),
+                Ok(None) => {}
+                Ok(Some((got, _))) => {
+                    // the first difference must be an error (the operation hit by the fault); behind it nothing may differ
+                    let first = (0..base.len()).find(|&j| got.get(j) != base.get(j));
+                    if let Some(j) = first {
+                        if got[j] != "err" {
+                            sink.fail("C16", "device/read-fault-wrong-data", &replay, &format!("operation {j} of the walk was hit by the device fault and returned data that differs from the fault-free answer instead of an error"));
+                        } else if let Some(j2) = (j + 1..base.len()).find(|&j2| got[j2] != base[j2]) {
+                            let d = format!("operation {j} of the walk failed on a transient device fault; the later operation {j2} ({}) then answered {} where a fresh reader answers {}", wtxt[j2], &got[j2], &base[j2]);
+                            sink.fail("C17", "history/after-device-fault", &replay, &d);
+                            sink.fail("C16", "device/read-fault-poisons-later-reads", &replay, &d);
+                        }
+                    }
+                }
+            }
+            k += stride;
+        }
+        sink.stat("fault_walk");
+    }
     // ---------------------------------------------------------------- 3. crash images (C15)
     let ncrash = if thorough { 150 } else { 25 };
     let cuts: [usize; 18] = [0, 1, 8, 16, 24, 25, 31, 32, 33, 39, 40, 47, 48, 49, 512, 1019, 1020, 1023];
